@@ -84,14 +84,17 @@ def _worker(args):
 
 
 _pool = None
+NO_POOL = False         # set in processes that are themselves workers of a job pool
 
 
 def pool(procs=14):
+    """worker processes are *spawned*: this process has threads by now (z3's timer thread,
+    executor threads), and a forked child can inherit a lock held by one of them"""
     global _pool
     if _pool is None:
         import multiprocessing as mp
         from concurrent.futures import ProcessPoolExecutor
-        _pool = ProcessPoolExecutor(max_workers=procs, mp_context=mp.get_context("fork"))
+        _pool = ProcessPoolExecutor(max_workers=procs, mp_context=mp.get_context("spawn"))
     return _pool
 
 
@@ -120,7 +123,7 @@ def discharge_parallel(obs, timeout_ms=20000, procs=14, min_batch=12):
     """discharge many obligations on all cores: each is shipped as SMT-LIB text to a worker
     process running z3; refuted ones are re-solved locally to obtain a model"""
     todo = [ob for ob in obs if ob.result is None]
-    if len(todo) < min_batch:
+    if len(todo) < min_batch or NO_POOL:
         for ob in todo:
             discharge(ob, timeout_ms)
         return obs
